@@ -3,7 +3,7 @@
 # checks against it from a PRIVATE worktree of /verif (regenerated Gen files and lake state of the main tree are not touched;
 # /repo itself is not touched either: other work may be using it).
 d=$1; shift
-W=/var/tmp/wt/seedrun
+W=${SEEDRUN:-/var/tmp/wt/seedrun}
 if [ ! -d $W ]; then git -C /verif worktree add -q --detach $W HEAD || exit 1; fi
 (cd $W && git checkout -q --detach $(git -C /verif rev-parse HEAD) && git checkout -q -- . && python3 tools/gen_registry.py >/dev/null)
 S=/var/tmp/seedtry.$$
